@@ -1,8 +1,8 @@
 #!/bin/sh
 # runs seedrun.py for every delivered seed that has no result yet (3 in parallel)
 cd /verif
-for d in /tmp/seed-out/C*/[abcde]; do
-  [ -f "$d/patch.diff" ] || continue; case "$d" in */e) [ -f "$d/.done" ] || continue;; esac
+for d in /tmp/seed-out/C*/[abcdef]; do
+  [ -f "$d/patch.diff" ] || continue; case "$d" in */e|*/f) [ -f "$d/.done" ] || continue;; esac
   pid=$(basename $(dirname $d)); var=$(basename $d)
   grep -q "^SEED $pid-$var:" /tmp/seedruns.log 2>/dev/null && continue
   echo "$pid $var"
